@@ -6,6 +6,7 @@ Part A: `parse_rm_dirs` — an accepted pattern is a `/`-joined list of proper c
 Part B: the filtering loop of `glob_in_run_dir`.
 Part C: containment of the deleting operations (`Shr`, `Inside`, the walk through the ancestors).
 Part D: completeness (what is matched is gone afterwards).
+Part E: the tidy-up after the deletion (`runN`, `_cylc-install`, empty parents).
 -/
 import CylcModel.PathClean
 import CylcModel.PathNameLemmas
@@ -1167,5 +1168,207 @@ theorem cleanRest_no_error (n : Nat) (runDir : P) :
       simp at hstep
       subst hstep
       exact ih fs1
+
+/-! ## Part E: the tidy-up after the deletion -/
+
+theorem Shr.imp {A B : P → Prop} {a b : Fs} (hAB : ∀ p, A p → B p) (h : Shr A a b) : Shr B a b :=
+  ⟨h.1, fun e he hne => hAB _ (h.2 e he hne)⟩
+
+/-- the entries named by the ancestors `path.take k` of `path`, at most `depth` levels up -/
+def ParentOf (fs0 : Fs) (path : P) (depth : Nat) (p : P) : Prop :=
+  ∃ k, path.length ≤ k + depth ∧ k < path.length ∧ LRes fs0 (path.take k) p
+
+theorem removeEmptyParents_shr {fs0 : Fs} (n : Nat) (path : P) (depth : Nat) :
+    ∀ (rem i : Nat) (fs : Fs), SubFs fs fs0 → i + rem ≤ depth →
+      Shr (ParentOf fs0 path depth) fs (removeEmptyParents n path rem i fs) := by
+  intro rem
+  induction rem with
+  | zero => intro i fs _ _; exact Shr.refl _ _
+  | succ r ih =>
+    intro i fs h0 hi
+    unfold removeEmptyParents
+    simp only
+    split
+    · exact ih (i + 1) fs h0 (by omega)
+    · split
+      · next q hl =>
+        split
+        · next hc =>
+          simp at hc
+          obtain ⟨⟨hk, hq⟩, _⟩ := hc
+          have hlen : path.length ≠ 0 := by
+            intro e
+            have : path = [] := List.length_eq_zero_iff.mp e
+            subst this
+            simp [lres] at hl
+            exact hq hl
+          have hA : ParentOf fs0 path depth q :=
+            ⟨path.length - 1 - i, by omega, by omega, (lres_LRes hl).mono h0⟩
+          have hstep : Shr (ParentOf fs0 path depth) fs (remove fs q) := shr_remove fs q hA
+          exact hstep.trans (ih (i + 1) (remove fs q) (hstep.1.trans h0) (by omega))
+        · exact Shr.refl _ _
+      · exact Shr.refl _ _
+
+open CylcModel.Generated in
+/-- what the tidy-up may take away, in the tree `fs0` as it was before cleaning: the `runN` link next
+to the run dir, `_cylc-install` next to the run dir (with its contents), parent directories of the
+run dir below `cylc-run`, parent directories of the symlink-dir targets inside their
+`cylc-run/<id>/<dir>` tail -/
+def TidyPath (fs0 : Fs) (runDir idc : P) (sdl : List (P × P)) (p : P) : Prop :=
+  LRes fs0 (runDir.dropLast ++ [CleanCfg.runN.toList]) p ∨
+  (∃ q, LRes fs0 (runDir.dropLast ++ [CleanCfg.installDirname.toList]) q ∧ q <+: p) ∨
+  ParentOf fs0 runDir (idc.length - 1) p ∨
+  ∃ x ∈ sdl, ParentOf fs0 x.2 ((idc ++ x.1).length - 1) p
+
+theorem tidy_fold_shr {fs0 : Fs} (n : Nat) (runDir idc : P) (sdl : List (P × P)) :
+    ∀ (l : List (P × P)) (fs : Fs), (∀ x ∈ l, x ∈ sdl) → SubFs fs fs0 →
+      Shr (TidyPath fs0 runDir idc sdl) fs
+        (l.foldl (fun f (x : P × P) => removeEmptyParents n x.2 ((idc ++ x.1).length - 1) 0 f) fs) := by
+  intro l
+  induction l with
+  | nil => intro fs _ _; exact Shr.refl _ _
+  | cons x l ih =>
+    intro fs hl h0
+    simp only [List.foldl_cons]
+    have hstep : Shr (TidyPath fs0 runDir idc sdl) fs
+        (removeEmptyParents n x.2 ((idc ++ x.1).length - 1) 0 fs) :=
+      (removeEmptyParents_shr n x.2 _ _ 0 fs h0 (by omega)).imp
+        (fun p hp => .inr (.inr (.inr ⟨x, hl x (by simp), hp⟩)))
+    exact hstep.trans (ih _ (fun y hy => hl y (by simp [hy])) (hstep.1.trans h0))
+
+open CylcModel.Generated in
+/-- "Remove `runN` symlink if it's now broken" -/
+def tidyRunN (n : Nat) (runDir : P) (fs : Fs) : Fs :=
+  match lres fs n (runDir.dropLast ++ [CleanCfg.runN.toList]) with
+  | some q =>
+    match kindAt fs q with
+    | some (.link t rel) =>
+      if !pexists fs n runDir && rel && t = q.dropLast ++ [runDir.getLast?.getD []] then remove fs q else fs
+    | _ => fs
+  | none => fs
+
+open CylcModel.Generated in
+/-- "Remove _cylc-install if it's the only thing left" -/
+def tidyInstall (n : Nat) (runDir : P) (fs1 : Fs) : Fs :=
+  match resolve fs1 n [] runDir.dropLast with
+  | some d =>
+    if (childNames fs1 d).all (fun c => c = CleanCfg.installDirname.toList)
+        && isDir fs1 n (runDir.dropLast ++ [CleanCfg.installDirname.toList]) then
+      (removeDirOrFile fs1 n (runDir.dropLast ++ [CleanCfg.installDirname.toList])).1
+    else fs1
+  | none => fs1
+
+theorem tidy_eq (n : Nat) (runDir idc : P) (sdl : List (P × P)) (fs : Fs) :
+    tidy n runDir idc sdl fs =
+      sdl.foldl (fun f (x : P × P) => removeEmptyParents n x.2 ((idc ++ x.1).length - 1) 0 f)
+        (removeEmptyParents n runDir (idc.length - 1) 0 (tidyInstall n runDir (tidyRunN n runDir fs))) := rfl
+
+open CylcModel.Generated in
+theorem tidyRunN_shr {fs0 fs : Fs} (n : Nat) (runDir idc : P) (sdl : List (P × P)) (h0 : SubFs fs fs0) :
+    Shr (TidyPath fs0 runDir idc sdl) fs (tidyRunN n runDir fs) := by
+  unfold tidyRunN
+  split
+  · next q hl =>
+    split
+    · split
+      · exact shr_remove fs q (.inl ((lres_LRes hl).mono h0))
+      · exact Shr.refl _ _
+    · exact Shr.refl _ _
+  · exact Shr.refl _ _
+
+open CylcModel.Generated in
+theorem tidyInstall_shr {fs0 fs1 : Fs} (n : Nat) (runDir idc : P) (sdl : List (P × P)) (h0 : SubFs fs1 fs0) :
+    Shr (TidyPath fs0 runDir idc sdl) fs1 (tidyInstall n runDir fs1) := by
+  unfold tidyInstall
+  split
+  · split
+    · refine (shr_removeDirOrFile
+        (A := fun p => ∃ q, LRes fs0 (runDir.dropLast ++ [CleanCfg.installDirname.toList]) q ∧ q <+: p)
+        (fun p q ⟨x, hx, hxp⟩ hpq => ⟨x, hx, hxp.trans hpq⟩) fs1 n _
+        (fun q hq => ⟨q, (lres_LRes hq).mono h0, List.prefix_refl _⟩)).imp
+        (fun p hp => .inr (.inl hp))
+    · exact Shr.refl _ _
+  · exact Shr.refl _ _
+
+theorem tidy_shr {fs0 fs : Fs} (n : Nat) (runDir idc : P) (sdl : List (P × P)) (h0 : SubFs fs fs0) :
+    Shr (TidyPath fs0 runDir idc sdl) fs (tidy n runDir idc sdl fs) := by
+  rw [tidy_eq]
+  have h1 := tidyRunN_shr n runDir idc sdl h0
+  have h2 := tidyInstall_shr n runDir idc sdl (h1.1.trans h0)
+  have h02 : SubFs (tidyInstall n runDir (tidyRunN n runDir fs)) fs0 := h2.1.trans (h1.1.trans h0)
+  have h3 : Shr (TidyPath fs0 runDir idc sdl) _
+      (removeEmptyParents n runDir (idc.length - 1) 0 (tidyInstall n runDir (tidyRunN n runDir fs))) :=
+    (removeEmptyParents_shr n runDir _ _ 0 _ h02 (by omega)).imp (fun p hp => .inr (.inr (.inl hp)))
+  have h4 := tidy_fold_shr n runDir idc sdl sdl _ (fun _ h => h) (h3.1.trans h02)
+  exact h1.trans (h2.trans (h3.trans h4))
+
+/-- **everything `clean` deletes** is inside the workflow or is one of the tidy-up paths -/
+theorem clean_shr {fs0 : Fs} {n : Nat} {runDir idc : P} {sdl : List (P × P)} (skip : Bool)
+    (htab : ∀ d ∈ symlinkDirNames, ∀ k, k ≤ d.length → d.take k ∈ symlinkDirNames)
+    (hsd : getSymlinkDirs fs0 n runDir idc = some sdl) (pats : Option (List (List P))) :
+    Shr (fun p => Inside fs0 runDir (sdl.map (·.1)) p ∨ TidyPath fs0 runDir idc sdl p) fs0
+      (clean skip fs0 n runDir idc pats).1 := by
+  unfold clean
+  simp only [hsd]
+  have hm := cleanMain_shr skip (linkClosed_of_getSymlinkDirs htab hsd) pats
+  generalize cleanMain skip fs0 n runDir (sdl.map (·.1)) pats = r at hm
+  obtain ⟨fs1, e⟩ := r
+  cases e with
+  | some e => exact hm.imp (fun p hp => .inl hp)
+  | none =>
+    exact (hm.imp (fun p hp => .inl hp)).trans ((tidy_shr n runDir idc sdl hm.1).imp (fun p hp => .inr hp))
+
+theorem removeEmptyParents_step (n : Nat) (path : P) (r i : Nat) (fs : Fs) :
+    removeEmptyParents n path (r + 1) i fs = removeEmptyParents n path r (i + 1) fs ∨
+    (∃ q, isEmptyDir fs q = true ∧
+      removeEmptyParents n path (r + 1) i fs = removeEmptyParents n path r (i + 1) (remove fs q)) ∨
+    removeEmptyParents n path (r + 1) i fs = fs := by
+  simp only [removeEmptyParents]
+  split
+  · exact .inl rfl
+  · split
+    · next q _ =>
+      split
+      · next hc =>
+        simp at hc
+        exact .inr (.inl ⟨q, hc.2, rfl⟩)
+      · exact .inr (.inr rfl)
+    · exact .inr (.inr rfl)
+
+theorem removeEmptyParents_mem (n : Nat) (path : P) :
+    ∀ (rem i : Nat) (fs : Fs), ∀ e ∈ removeEmptyParents n path rem i fs, e ∈ fs := by
+  intro rem
+  induction rem with
+  | zero => intro i fs e he; exact he
+  | succ r ih =>
+    intro i fs e he
+    rcases removeEmptyParents_step n path r i fs with h | ⟨q, _, h⟩ | h
+    · rw [h] at he; exact ih _ _ e he
+    · rw [h] at he; exact remove_sub fs _ e (ih _ _ e he)
+    · rw [h] at he; exact he
+
+/-- `remove_empty_parents` only ever removes directories with nothing below them: an entry that
+disappears leaves no entry strictly below it behind -/
+theorem removeEmptyParents_only_empty (n : Nat) (path : P) :
+    ∀ (rem i : Nat) (fs : Fs), ∀ e ∈ fs, e ∉ removeEmptyParents n path rem i fs →
+      ∀ e' ∈ removeEmptyParents n path rem i fs, ¬ (e.1 <+: e'.1 ∧ e'.1 ≠ e.1) := by
+  intro rem
+  induction rem with
+  | zero => intro i fs e he hne; exact absurd he hne
+  | succ r ih =>
+    intro i fs e he hne e' he'
+    rcases removeEmptyParents_step n path r i fs with h | ⟨q, hemp, h⟩ | h
+    · rw [h] at hne he'; exact ih _ _ e he hne e' he'
+    · rw [h] at hne he'
+      by_cases hq : e ∈ remove fs q
+      · exact ih _ _ e hq hne e' he'
+      · have heq : e.1 = q := mem_remove he hq
+        have he'fs : e' ∈ fs := remove_sub fs q e' (removeEmptyParents_mem n path _ _ _ e' he')
+        unfold isEmptyDir at hemp
+        have := (List.all_eq_true.mp hemp) e' he'fs
+        rw [heq]
+        intro ⟨hp, hn⟩
+        simp [List.isPrefixOf_iff_prefix.mpr hp, hn] at this
+    · rw [h] at hne; exact absurd he hne
 
 end CylcModel.PathClean
